@@ -420,10 +420,56 @@ def prefix_order_case(case):
     return dict(reproduced=bool(violated), violated=violated[:8])
 
 
+def class_state_untouched_case(case):
+    """C10 (statement): no sequence of operations on one instance changes the trait definitions observable on another instance
+    of the same class or on the class itself -- in particular the query methods built on traits() are read-only."""
+    import copy
+    import pickle
+    from traits.api import HasTraits, Int, Str
+    violated = []
+
+    class Point(HasTraits):
+        x = Int(1)
+        y = Int(2)
+    globals()["Point"] = Point
+    Point.__module__ = __name__
+    Point.__qualname__ = "Point"
+
+    def snapshot():
+        ct = Point.class_traits()
+        return (sorted(ct), {n: id(t) for n, t in ct.items()}, sorted(Point().trait_names()), Point.class_traits()["x"].default)
+    for label, prepare in (("add_trait('tag', Str)", lambda a: a.add_trait("tag", Str("t"))),
+                           ("add_trait('x', Int(99)) over a class trait", lambda a: a.add_trait("x", Int(99))),
+                           ("on_trait_change(h, 'y')", lambda a: a.on_trait_change(lambda: None, "y"))):
+        for qlabel, query in (("clone_traits()", lambda a: a.clone_traits()), ("deepcopy", lambda a: copy.deepcopy(a)), ("pickle.dumps", lambda a: pickle.dumps(a)),
+                              ("editable_traits()", lambda a: a.editable_traits()), ("trait_names(type='trait')", lambda a: a.trait_names(type="trait")),
+                              ("trait_get(transient=None)", lambda a: a.trait_get(transient=lambda v: v is None)), ("traits()", lambda a: a.traits())):
+            before = snapshot()
+            b = Point()
+            a = Point()
+            prepare(a)
+            try:
+                query(a)
+            except Exception:
+                pass
+            after = snapshot()
+            if after != before:
+                violated.append("after a.%s and a.%s the CLASS reports other trait definitions: names %s -> %s, new instances report %s, class default of x %r -> %r" % (
+                    label, qlabel, before[0], after[0], after[2], before[3], after[3]))
+            if sorted(b.trait_names()) != before[2]:
+                violated.append("after a.%s and a.%s ANOTHER instance reports %s" % (label, qlabel, sorted(b.trait_names())))
+            # undo what a correct library leaves behind: nothing (instance traits die with `a`)
+            if len(violated) >= 4:
+                break
+        if len(violated) >= 4:
+            break
+    return dict(reproduced=bool(violated), violated=violated[:4])
+
+
 def main():
     case = json.loads(sys.stdin.read())
     out = {"get_trait": get_trait_case, "clone": clone_case, "prefix_trait_unhashable": prefix_trait_unhashable_case,
-           "prefix_cache_inherited": prefix_cache_inherited_case, "copy_traits": copy_traits_case, "default_isolation": default_isolation_case, "subclass_cached_getter": subclass_cached_getter_case, "prefix_order": prefix_order_case}[case["family"]](case)
+           "prefix_cache_inherited": prefix_cache_inherited_case, "copy_traits": copy_traits_case, "default_isolation": default_isolation_case, "subclass_cached_getter": subclass_cached_getter_case, "prefix_order": prefix_order_case, "class_state_untouched": class_state_untouched_case}[case["family"]](case)
     print(json.dumps(out, default=repr))
 
 
